@@ -1,8 +1,10 @@
-(** C01 — the evaluator's property predicate follows from the theorems: whenever
-    the implementation's observations agree with the model ([corr]), the
-    property predicate evaluated on these observations ([prop]) holds.  So a
-    property failure reported by the check always comes with a model/
-    implementation difference on that very input (DESIGN §4, row 3 cannot occur). *)
+(** C01 — the evaluator's hypotheses and property predicate against the theorems:
+    the executable hypotheses imply the theorems' hypotheses, and the property
+    predicate [prop] (which is built from the specification and never mentions
+    [serve]) holds on every case on which the implementation agrees EXACTLY with the
+    model ([corr_exact]) — i.e. it demands nothing the theorems do not give.  The
+    check's correspondence is coarser ([corr]: projection), so [prop] decides on its own
+    about exact statuses of positive answers and hit counts. *)
 From HV Require Import Base.Prelude Base.ErrChain C12.Model C12.Proofs C01.Model C01.Proofs Run.Eval_C01.
 Local Open Scope Z_scope.
 
@@ -42,7 +44,7 @@ Lemma good_eh_b_sound h : good_eh_b h = true -> good_eh h.
 Proof.
   unfold good_eh_b, good_eh. rewrite andb_true_iff. intros [A B].
   split; [apply good_cond_b_sound; exact A|].
-  destruct (e_kind h) as [[|code to|realm]|e|v|]; auto.
+  destruct (e_kind h) as [[|code to|realm]|e|v| |f]; auto; try discriminate.
   - apply negb_success_like. exact B.
   - apply good_err_b_sound. exact B.
   - apply good_panic_b_sound. exact B.
@@ -56,7 +58,7 @@ Qed.
 
 Lemma sane_b_sound c r : sane_b c r = true -> sane c r.
 Proof.
-  unfold sane_b, sane, redirects_ok_b, redirects_ok, loaded, real_handlers, real_handlers_b.
+  unfold sane_b, sane, redirects_ok_b, redirects_ok, handlers_record, handlers_record_b.
   rewrite !andb_true_iff. intros [[[A [[[B1 B2] B3] B4]] C] D].
   split; [apply overrides_not_success_b_sound; exact A|]. split; [|split].
   - repeat split.
@@ -65,20 +67,8 @@ Proof.
     + eapply forallb_Forall; [|exact B3]. apply good_step_b_sound.
     + eapply forallb_Forall; [|exact B4]. apply good_eh_b_sound.
   - destruct (sc r); [discriminate | discriminate].
-  - eapply forallb_Forall; [|exact D]. intros h H E. cbv beta in H. rewrite E in H. discriminate.
-Qed.
-
-Lemma step_quiet_b_sound s : step_quiet_b s = true -> step_quiet s.
-Proof.
-  unfold step_quiet_b, step_quiet, cond_true.
-  destruct (s_if s) as [[[|]|e|v]|]; intro H; try discriminate; split; try discriminate;
-    try (intros [E|E]; discriminate); intros _ v' E; rewrite E in H; discriminate.
-Qed.
-
-Lemma quiet_b_sound r : quiet_b r = true -> quiet r.
-Proof.
-  unfold quiet_b, quiet. rewrite andb_true_iff. intros [A B].
-  split; eapply forallb_Forall; eauto using step_quiet_b_sound.
+  - eapply forallb_Forall; [|exact D]. intros h H. cbv beta in H. unfold handler_records.
+    destruct (e_kind h); try exact I; discriminate.
 Qed.
 
 Lemma ogc_is_GOk_neq g o : ogc_is g o = true -> g <> GOk -> ogc_is GOk o = false.
@@ -92,7 +82,7 @@ Proof.
   destruct a, o; simpl; try discriminate.
   - intros M [S H]. apply andb_true_iff in M as [E1 E2]. apply Z.eqb_eq in E1. apply Nat.eqb_eq in E2.
     subst. rewrite S. reflexivity.
-  - auto.
+  - intros M H. subst. rewrite Nat.eqb_sym. exact M.
   - intros _ [].
   - intros M [N S]. apply andb_true_iff in M as [M E3]. apply andb_true_iff in M as [E1 E2].
     apply Z.eqb_eq in E2. subst. rewrite (ogc_is_GOk_neq _ _ E1 N), S, E3. reflexivity.
@@ -100,27 +90,49 @@ Proof.
 Qed.
 
 Lemma non_success_b_not_positive en c o :
-  success_like (accepted_code c) = true -> non_success_b o = true -> positive_b en c o = false.
+  (en = Decision -> success_like (accepted_code c) = true) -> non_success_b o = true -> positive_b en c o = false.
 Proof.
-  intros HA. destruct en, o; simpl; try reflexivity; try discriminate; intro B; apply andb_true_iff in B as [S H].
-  - destruct (status =? accepted_code c) eqn:E; [|reflexivity].
-    apply Z.eqb_eq in E. subst. rewrite HA in S. discriminate.
-  - apply Nat.eqb_eq in H. subst. reflexivity.
+  intros HA. destruct en, o; simpl; try reflexivity; try discriminate; intro B;
+    try (apply andb_true_iff in B as [S H]); try (apply Nat.eqb_eq in B; subst; reflexivity);
+    try (apply Nat.eqb_eq in H; subst; reflexivity).
+  destruct (status =? accepted_code c) eqn:E; [|reflexivity].
+  apply Z.eqb_eq in E. subst. rewrite (HA eq_refl) in S. discriminate.
 Qed.
 
-Lemma match_positive_answer en c o :
-  ans_match (match en with
-             | Decision => AHttp (accepted_code c) 0
-             | Proxy => AHttp upstream_status 1
-             | Envoy => AEnvoyOk
-             end) o = true -> is_positive_answer en c o = true.
+Lemma match_positive_shape en c a o :
+  ans_match a o = true -> positive_shape en c a -> positive_shape_b en c o = true.
 Proof.
-  destruct en, o; simpl; try discriminate; intro M; apply andb_true_iff in M as [E1 E2];
-    apply andb_true_iff; split; try assumption.
-  - rewrite Z.eqb_sym. exact E1.
-  - rewrite Nat.eqb_sym. exact E2.
-  - rewrite Z.eqb_sym. exact E1.
-  - rewrite Nat.eqb_sym. exact E2.
+  destruct en; simpl.
+  - intros M ->. destruct o; simpl in *; try discriminate.
+    apply andb_true_iff in M as [E1 E2]. rewrite Z.eqb_sym, E1, Nat.eqb_sym, E2. reflexivity.
+  - destruct a, o; simpl; try discriminate; intros M H; subst.
+    + apply andb_true_iff in M as [_ E]. rewrite Nat.eqb_sym. exact E.
+    + rewrite Nat.eqb_sym. exact M.
+    + discriminate.
+    + discriminate.
+    + discriminate.
+  - intros M ->. destruct o; simpl in *; try discriminate. exact M.
+Qed.
+
+Lemma match_hits_ok en c l q o :
+  overrides_not_success (c_respond c) -> (forall r, applied l r -> sane c r) ->
+  ans_match (serve en c l q) o = true -> hits_ok en o = true.
+Proof.
+  intros HO HS M.
+  assert (O : match o with OOther _ => false | _ => true end = true)
+    by (destruct (serve en c l q), o; simpl in M; try discriminate; reflexivity).
+  unfold hits_ok. rewrite O, andb_true_r.
+  destruct (answer_dichotomy en c l q HS HO) as [N|(r & _ & _ & P)].
+  - pose proof (match_non_success _ _ M N) as B.
+    assert (Z0 : ohits o = 0%nat).
+    { destruct o; simpl in B |- *; try discriminate;
+        repeat (apply andb_true_iff in B as [B ?]); try (apply Nat.eqb_eq; assumption). }
+    rewrite Z0. destruct en; reflexivity.
+  - pose proof (match_positive_shape en c _ o M P) as B.
+    destruct en, o; simpl in B |- *; try discriminate;
+      repeat (apply andb_true_iff in B as [B ?]); try assumption;
+      try (apply Nat.eqb_eq in B; rewrite B; reflexivity);
+      try (apply Nat.eqb_eq in H; rewrite H; reflexivity).
 Qed.
 
 Lemma applied_rule_applied l r : applied_rule l = Some r -> applied l r.
@@ -129,40 +141,34 @@ Proof. destruct l; simpl; intro H; inversion H; subst; [left | right]; reflexivi
 Lemma applied_unique l r r' : applied l r -> applied l r' -> r = r'.
 Proof. intros [-> | ->] [H|H]; inversion H; reflexivity. Qed.
 
-Theorem prop_entry_of_match en k o :
-  ans_match (serve en (k_cfg k) (k_l k) (k_q k)) o = true -> prop_entry en k o = true.
+Theorem prop_entry_of_exact en k o :
+  ans_match (serve en (k_cfg k) (k_l k) (k_q k)) o = true -> hyps_b en k = true -> prop_entry en k o = true.
 Proof.
-  intro M. unfold prop_entry.
+  intros M H. unfold prop_entry. rewrite H. unfold hyps_b in H.
+  apply andb_true_iff in H as [H HA]. apply andb_true_iff in H as [HO HS].
+  apply overrides_not_success_b_sound in HO.
+  assert (ACC : en = Decision -> success_like (accepted_code (k_cfg k)) = true)
+    by (intros ->; exact HA).
+  assert (ALL : forall r, applied (k_l k) r -> sane (k_cfg k) r).
+  { intros r Ap. destruct (applied_rule (k_l k)) as [r'|] eqn:AR.
+    - rewrite (applied_unique _ _ _ Ap (applied_rule_applied _ _ AR)). apply sane_b_sound. exact HS.
+    - destruct Ap as [E|E]; rewrite E in AR; discriminate. }
+  rewrite (match_hits_ok en (k_cfg k) (k_l k) (k_q k) o HO ALL M). simpl.
   destruct (applied_rule (k_l k)) as [r|] eqn:AR.
-  - destruct (sane_b (k_cfg k) r && success_like (accepted_code (k_cfg k))) eqn:H; [|reflexivity].
-    apply andb_true_iff in H as [HS HA]. apply sane_b_sound in HS.
-    pose proof (applied_rule_applied _ _ AR) as Ap.
-    assert (ALL : forall r', applied (k_l k) r' -> sane (k_cfg k) r')
-      by (intros r' Ap'; rewrite <- (applied_unique _ _ _ Ap Ap'); exact HS).
-    destruct (succeeded_b r) eqn:SB.
-    + match goal with |- (if ?b then _ else _) = true => destruct b eqn:SIDE end; [|reflexivity].
-      apply andb_true_iff in SIDE as [SIDE S3]. apply andb_true_iff in SIDE as [S1 S2].
-      apply succeeded_b_spec in SB. apply quiet_b_sound in S1. apply negb_true_iff in S2.
-      destruct (success_is_positive en (k_cfg k) (k_l k) r (k_q k) Ap SB S1 S2) as [E _].
-      * intros ->. exact S3.
-      * intros ->. exact S3.
-      * rewrite E in M. apply match_positive_answer. exact M.
+  - pose proof (applied_rule_applied _ _ AR) as Ap.
+    destruct (completed_b r) eqn:CB.
+    + destruct (answer_dichotomy en (k_cfg k) (k_l k) (k_q k) ALL HO) as [N|(r' & _ & _ & P)].
+      * rewrite (match_non_success _ _ M N). reflexivity.
+      * rewrite (match_positive_shape en (k_cfg k) _ o M P). apply orb_true_r.
     + assert (NS : non_success (serve en (k_cfg k) (k_l k) (k_q k))).
-      { apply failed_never_reaches_upstream; [exact ALL | exact (proj1 HS)|].
+      { apply failed_never_reaches_upstream; [exact ALL | exact HO|].
         intros r' Ap' P. rewrite <- (applied_unique _ _ _ Ap Ap') in P.
-        apply succeeded_b_spec in P. congruence. }
+        apply completed_b_spec in P. congruence. }
       pose proof (match_non_success _ _ M NS) as B. rewrite B.
-      rewrite (non_success_b_not_positive en (k_cfg k) o HA B). reflexivity.
-  - destruct (overrides_not_success_b (c_respond (k_cfg k))) eqn:HO; [|reflexivity].
-    apply overrides_not_success_b_sound in HO.
-    eapply match_non_success; [exact M|].
-    apply failed_never_reaches_upstream; [|exact HO|].
-    + intros r [E|E]; rewrite E in AR; discriminate.
-    + intros r [E|E]; rewrite E in AR; discriminate.
-Qed.
-
-Theorem check_sound k : v_corr (check k) = true -> v_prop (check k) = true.
-Proof.
-  simpl. unfold corr, prop. rewrite !andb_true_iff. intros [[A B] C].
-  repeat split; apply prop_entry_of_match; assumption.
+      rewrite (non_success_b_not_positive en (k_cfg k) o ACC B). reflexivity.
+  - assert (NS : non_success (serve en (k_cfg k) (k_l k) (k_q k))).
+    { apply failed_never_reaches_upstream; [exact ALL | exact HO|].
+      intros r [E|E]; rewrite E in AR; discriminate. }
+    pose proof (match_non_success _ _ M NS) as B. rewrite B.
+    rewrite (non_success_b_not_positive en (k_cfg k) o ACC B). reflexivity.
 Qed.
